@@ -786,7 +786,11 @@ impl<'a> Machine<'a> {
 
     fn truthy(&mut self, e: &Expr, path: &str) -> R<bool> {
         let v = self.eval(e, path)?;
-        Ok(!v.num().is_zero())
+        let n = v.num();
+        if !n.is_zero() && !(n.is_whole() && n.m == -1) {
+            self.feat("truth-value-other-than-0-and-minus-1");
+        }
+        Ok(!n.is_zero())
     }
 
     fn case_matches(&mut self, subject: &Val, item: &CaseItem, path: &str) -> R<bool> {
